@@ -348,7 +348,6 @@ pub struct FsyncRec {
     /// bytes in the file when the call was made
     pub len_before: u64,
     pub synced_at_return: u64,
-    pub start: u64,
     pub end: u64,
     pub err: Option<String>,
 }
@@ -393,7 +392,6 @@ pub struct Driven {
     pub payload: Vec<Vec<u64>>,
     pub recs: Vec<Vec<Rec>>,
     pub fsyncs: Vec<FsyncRec>,
-    pub prefilled: bool,
     pub pile_established: bool,
     pub writes: u64,
     pub syncs: u64,
@@ -586,12 +584,11 @@ pub fn drive(ctx: &Ctx, c: &ConcCase, after_arm: &dyn Fn(u64, u64)) -> Result<Dr
                 for i in 0..calls as usize {
                     pause(if before.is_empty() { Delay::Yield(1) } else { before[i % before.len()] });
                     std::thread::yield_now();
-                    let start = shim::tick();
                     let len_before = shim::LEN.load(Ordering::SeqCst);
                     let r = log.fsync();
                     let synced_at_return = shim::SYNCED.load(Ordering::SeqCst);
                     let end = shim::tick();
-                    recs.push(FsyncRec { len_before, synced_at_return, start, end, err: r.err().map(|e| vcore::truncate(&format!("{e:?}"), 300)) });
+                    recs.push(FsyncRec { len_before, synced_at_return, end, err: r.err().map(|e| vcore::truncate(&format!("{e:?}"), 300)) });
                 }
                 recs
             }));
@@ -732,7 +729,7 @@ pub fn drive(ctx: &Ctx, c: &ConcCase, after_arm: &dyn Fn(u64, u64)) -> Result<Dr
     if prefilled {
         recs.push(plan[nt].iter().map(|_| Rec { start: 0, end: 0, synced_at_return: u64::MAX, err: None }).collect());
     }
-    Ok(Driven { plan, payload, recs, fsyncs, prefilled, pile_established, writes, syncs, shim_len, odd, write_trace, faults, writes_after_failure, sealed, opts, dir, path })
+    Ok(Driven { plan, payload, recs, fsyncs, pile_established, writes, syncs, shim_len, odd, write_trace, faults, writes_after_failure, sealed, opts, dir, path })
 }
 
 fn run_once(ctx: &Ctx, c: &ConcCase) -> Outcome {
